@@ -1,4 +1,5 @@
 import Proofs.C14
+import Proofs.Facts.C14
 #print axioms C14.cells_are_groupBy
 #print axioms C14.measurement_in_one_cell
 #print axioms C14.default_projection
@@ -12,3 +13,7 @@ import Proofs.C14
 #print axioms C14.cell_sampleWarnings
 #print axioms C14.cells_are_groupBy_raw
 #print axioms C14.rows_sorted_by_key_less
+#print axioms C14.Facts.flag_defaults_agree
+#print axioms C14.Facts.flag_set_agrees
+#print axioms C14.Facts.float_defaults_agree
+#print axioms C14.Facts.validation_pinned
